@@ -1,6 +1,7 @@
 import ComposeVerif.Ops.Common
 import ComposeVerif.Model.Name
 import ComposeVerif.Model.NameLoader
+import ComposeVerif.Model.NameOptions
 import ComposeVerif.Spec.Name
 /-! line-protocol ops for C17: `c17norm`, `c17normRange`, `c17load`, `c17pn` (loader-level entry) -/
 open Lean
@@ -108,6 +109,38 @@ def modelJson (w : World) (opts : List Opt) (skip : Bool := false) : Json :=
     match loadX w o skip with   -- `loadX w o false = load w o` (`loadX_interp_is_load`)
     | .error e => Json.mkObj [("err", errStr e), ("at", "load")]
     | .ok r => Json.mkObj [("ok", Json.mkObj [("name", str r.name), ("env", envJson r.env), ("probe", str r.probe)])]
+
+/-- what `c17ExtrasYaml` (harness/p/c17/c17prof.go) puts into every compose file of the C17 streams -/
+def harnessExtras : Extras :=
+  { services := [("q".toList, strs ["dev", "qa"]), ("t".toList, strs ["test"])],
+    resourceKeys := strs ["default", "n", "v", "c", "k"] }
+
+def loadedXFields (r : LoadedX) : List (String × Json) :=
+  [("name", str r.base.name), ("env", envJson r.base.env), ("probe", str r.base.probe),
+   ("profiles", Json.arr (r.profiles.map str).toArray),
+   ("enabled", Json.mkObj (r.enabled.map fun e => (String.ofList e.1, Json.bool e.2))),
+   ("res", Json.mkObj (r.resources.map fun e => (String.ofList e.1, str e.2)))]
+
+def optOfX (j : Json) : Option XOpt :=
+  match getStr j "op" with
+  | "profiles" => some (.profiles ((getStrList j "l").map String.toList))
+  | "defprofiles" => some (.defaultProfiles ((getStrList j "l").map String.toList))
+  | _ => (optOf j).map .base
+
+/-- `ProjectOptions.LoadModel` after a fresh `NewProjectOptions`: the same pipeline, observed in the raw model -/
+def lmFields (lm : Bool) (r : LoadedX) : List (String × Json) :=
+  if lm then [("lm", Json.mkObj [("name", str r.base.name), ("probe", str r.base.probe),
+    ("res", Json.mkObj (r.resources.map fun e => (String.ofList e.1, str e.2)))])] else []
+
+/-- `Name.runXP`, with the stage of a failure -/
+def modelJsonX (w : World) (opts : List XOpt) (skip : Bool) (lm : Bool := false) : Json :=
+  match runXOpts w opts ({ configs := w.given }, none) with
+  | .error e => Json.mkObj [("err", errStr e), ("at", "options")]
+  | .ok st =>
+    match loadX w st.1 skip with
+    | .error e => Json.mkObj [("err", errStr e), ("at", "load")]
+    | .ok r => Json.mkObj [("ok", Json.mkObj (loadedXFields (decorate harnessExtras st.2 r) ++
+        lmFields (lm && !st.1.configs.any (·.stdin)) (decorate harnessExtras st.2 r)))]
 
 open Spec in
 def decisionJson : Decision → Json
@@ -239,9 +272,10 @@ def interpCalls (a : Json) : List Bool :=
 
 def c17load : Handler := fun args =>
   let w := worldOf args
-  let opts := (getArr args "opts").filterMap optOf
+  let xopts := (getArr args "opts").filterMap optOfX
+  let opts := baseOpts xopts
   let skip := !interpFlag (interpCalls args)
-  Json.mkObj [("model", modelJson w opts skip), ("spec", specJson args w opts skip)]
+  Json.mkObj [("model", modelJsonX w xopts skip (getBool args "lm")), ("spec", specJson args w opts skip)]
 
 /-- the loader-level entry: `loader.LoadWithContext` with `SetProjectName(name, imp)`, `SkipInterpolation`, an
     environment that may be nil -/
@@ -256,7 +290,7 @@ def c17pn : Handler := fun args =>
   let probe := (getStr args "probe").toList
   let model := match loadL files env lo probe with
     | .error e => Json.mkObj [("err", errStr e)]
-    | .ok r => Json.mkObj [("ok", Json.mkObj [("name", str r.name), ("env", envJson r.env), ("probe", str r.probe)])]
+    | .ok r => Json.mkObj [("ok", Json.mkObj (loadedXFields (decorate harnessExtras none r)))]
   let dec := Spec.decide {
     explicit := if lo.imperative then lo.name else [],
     fromEnv := none,
